@@ -477,6 +477,21 @@ WHOLE = [
      '    d_type = Desc0(TypeError)\n'
      '    def __init__(self):\n        self.registry0 = {}\n',
      ['Holder0.d_attr', 'Holder0.d_key', 'Holder0.d_run', 'Holder0.d_type', 'Holder0']),
+    ('decorated_staticmethods',
+     '@wrappers.decorator\ndef deco0(func, *args, dp=False, **kwargs):\n    return func(*args, **kwargs)\n'
+     'class DS0(object):\n'
+     '    @modifiers.kwoargs("k")\n    @staticmethod\n    def ksm(a, k=1):\n        return a\n'
+     '    @deco0\n    @staticmethod\n    def dsm(p, q):\n        return p\n'
+     '    @staticmethod\n    @modifiers.kwoargs("k")\n    def skm(a, k=1):\n        return a\n'
+     '    @staticmethod\n    def fsm(a, *args, **kwargs):\n        return g(*args, **kwargs)\n'
+     'class DSub0(DS0):\n    pass\n',
+     ['DS0.ksm', 'DS0.dsm', 'DS0.skm', 'DS0.fsm', 'DSub0.ksm', 'DSub0.dsm', 'DSub0.fsm']),
+    ('borrowed_forwards_to_super',
+     'class A1(object):\n    def func(self, x, y=1):\n        return x\n'
+     'class B1(A1):\n    @specifiers.forwards_to_super()\n    def func(self, a, *args, **kwargs):\n'
+     '        return super().func(*args, **kwargs)\n'
+     'class Other1(object):\n    pass\nOther1.func = B1.__dict__["func"]\nother1 = Other1()\nb1 = B1()\n',
+     ['b1.func', 'other1.func', 'Other1.func']),
     ('pep563_module', '#FUTURE#\nimport typing\n'
                       'def noparams() -> typing.List[int]:\n    return []\n'
                       'def fwd(*args, **kwargs) -> int:\n    return g(*args, **kwargs)\n'
@@ -630,7 +645,7 @@ def gen_construct(ch):
                 source=src, subjects=subjects, tags={'construct'})
 
 
-GEN_TEMPLATES = ['wraps', 'wraps_annot', 'sigattr', 'fwd', 'meth', 'mod', 'deco', 'asforged', 'comb', 'builtin', 'instdep', 'chain']
+GEN_TEMPLATES = ['wraps', 'wraps_annot', 'sigattr', 'fwd', 'meth', 'mod', 'deco', 'asforged', 'comb', 'builtin', 'instdep', 'chain', 'siblings']
 
 
 def draw_gen_spec(ch, cfg):
@@ -823,7 +838,8 @@ def check_sphinx(res, dotted, viol, fault):
             if dotted.rpartition('.')[2] in klass.__dict__:
                 raw = klass.__dict__[dotted.rpartition('.')[2]]
                 break
-    if isinstance(raw, staticmethod):
+    if isinstance(raw, staticmethod) or (not isinstance(obj, types.MethodType)
+                                         and _static_like(parent, dotted.rpartition('.')[2])):
         # called as it is written: nothing is bound away
         res.counters['sphinx:staticmethod_member'] += 1
     elif isinstance(parent, type) and callable(o):
@@ -876,6 +892,26 @@ def check_sphinx(res, dotted, viol, fault):
         viol('T4', 'sphinx hook strings differ from inspect.signature(eval_str=True)',
              '{0}: got {1!r} expected {2!r}'.format(dotted, out, exp2))
         return
+
+
+def _static_like(cls, attr):
+    """Is the member static in effect -- however it is decorated: does looking it up on a real
+    instance bind nothing away?  Decided with plain inspect.signature on the class-level and the
+    instance-level object (same number of parameters), not by looking for a staticmethod object,
+    so that `@kwoargs('k') @staticmethod` and `@deco @staticmethod` are recognised too."""
+    if not isinstance(cls, type) or not str(getattr(cls, '__module__', '')).startswith('simworld_'):
+        return False        # never instantiate classes of the corpus: only generated ones
+    try:
+        inst = cls()
+        a = inspect.signature(getattr(cls, attr))
+        b = inspect.signature(getattr(inst, attr))
+    except Exception:
+        return False
+    pa, pb = list(a.parameters.values()), list(b.parameters.values())
+    if not pa or len(pa) != len(pb) or [p.name for p in pa] != [p.name for p in pb]:
+        return False
+    # a first parameter that binding would have consumed, had it been a method
+    return pa[0].kind in (pa[0].POSITIONAL_ONLY, pa[0].POSITIONAL_OR_KEYWORD)
 
 
 def _fetch_dotted(dotted):
